@@ -247,22 +247,22 @@ fn threads(ctx: &Ctx) -> usize {
   sink.total + rsink.total
 }
 
-/// the process-wide child-limit strategy under concurrent faults: four threads keep issuing births that are refused inside
-/// the strategy (start of luck beyond year 9999) while six threads issue valid births; every valid request must return
+/// the process-wide child-limit strategy under concurrent faults: eight threads keep issuing births that are refused inside
+/// the strategy (start of luck beyond year 9999) while eight threads issue valid births; every valid request must return
 /// what the same request returns afterwards, alone
 fn threads_strategy(ctx: &Ctx) -> usize {
   let mut sink = ctx.sink("Trace_C10", "thrq");
-  let rounds = if ctx.quick() { 2 } else { 12 };
-  let per = if ctx.quick() { 500 } else { 1500 };
+  let rounds = if ctx.quick() { 4 } else { 16 };
+  let per = if ctx.quick() { 2000 } else { 3000 };
   sink.segment();
   for round in 0..rounds {
     let rets: Vec<Vec<(Vec<i64>, Vec<i64>)>> = std::thread::scope(|s| {
-      let hs: Vec<_> = (0..10u64).map(|t| {
+      let hs: Vec<_> = (0..16u64).map(|t| {
         let mut trng = Rng::new(ctx.seed ^ (0xC10 + round as u64 * 977 + t));
         s.spawn(move || {
           let mut out = Vec::new();
           for _ in 0..per {
-            if t < 4 {
+            if t < 8 {
               // refused inside the strategy: births of the last supported years
               let a = vec![trng.range(5373484 - 1200, 5373484 - 10), trng.range(0, 23), trng.range(0, 59), trng.range(0, 59), trng.range(0, 1)];
               let _ = answer(9, &a);
